@@ -182,7 +182,12 @@ def generate(tier):
                     for ctx in CTX[1:]:
                         for cfg in ('PO', 'OP_O', 'OP_P'):
                             cases.append(build(shape, focus, assign, ranks, cfg, ctx=ctx))
-    return cases
+    seen, out = set(), []
+    for c in cases:
+        if c.key not in seen:
+            seen.add(c.key)
+            out.append(c)
+    return out
 
 
 RULE = ('focus element (struct, or a variant placed first/middle/last among plain sibling variants) with F fields x full '
